@@ -1,9 +1,109 @@
 (* C16 — VTK output puts each value in the grid cell a VTK reader finds at that position.
    ONLY statements, each closed by [exact] of a lemma proved in proofs/, followed by
-   Print Assumptions. *)
-From DF Require Import Prelude Constants_gen Region Mesh Subregions Vtk C16_layout.
+   Print Assumptions.  V is an arbitrary type of values (hence the reals), nrm an arbitrary
+   norm function, wr an arbitrary per-representation storage map: nothing but positions matters. *)
+From DF Require Import Prelude Constants_gen Region Mesh Subregions Vtk C16_layout C16_locate.
+Open Scope Q_scope.
 
+(* Clause 1 (all sizes, all 3-d meshes, 1..any components, any labels that are not reserved):
+   the grid has the mesh vertices as coordinates; for every p of the half-open region the cell a
+   VTK consumer locates at p (id = i + nx*(j + ny*k), the VTK numbering) is the mesh cell
+   point2index assigns to p, and the grid carries there the field value, the norm, the validity
+   flag and every component scalar of that mesh cell. *)
+Theorem C16_locate : forall (V : Type) (d : V) (nrm : list V -> V) (vone vzero : V)
+  (x0 y0 z0 x1 y1 z1 tf_ : Q) (ds us : list string) (kx ky kz : Z) (bc_ : string)
+  (subs_ : list (string * region)) (nv : nat) (vd : option (list string)) (vals : list V)
+  (valid : list bool) (px py pz : Q),
+  x0 < x1 -> y0 < y1 -> z0 < z1 -> (0 < kx)%Z -> (0 < ky)%Z -> (0 < kz)%Z -> 0 <= tf_ ->
+  ((1 < nv)%nat -> exists l, vd = Some l /\ length l = nv) ->
+  (forall l, vd = Some l -> Forall (fun s => reserved s = false) l) ->
+  x0 <= px /\ px < x1 -> y0 <= py /\ py < y1 -> z0 <= pz /\ pz < z1 ->
+  let m := mkMesh (mkRegion [x0; y0; z0] [x1; y1; z1] ds us tf_) [kx; ky; kz] bc_ subs_ in
+  let f := mkVF m nv vd vals valid in
+  let ny := Z.to_nat ky in let nz := Z.to_nat kz in
+  exists g iz jz kz_,
+    to_vtk d nrm vone vzero f = OK g /\ g_coords g = vertices m /\
+    g_dims g = [kx + 1; ky + 1; kz + 1]%Z /\
+    point2index m [px; py; pz] = OK [iz; jz; kz_] /\
+    let i := Z.to_nat iz in let j := Z.to_nat jz in let k := Z.to_nat kz_ in
+    let id := cell_id (Z.to_nat kx) ny i j k in
+    locate g [px; py; pz] = Some id /\
+    cell_tuple d g "field" id = Some (tuple_at d ny nz nv vals i j k) /\
+    cell_tuple d g "norm" id = Some [nrm (tuple_at d ny nz nv vals i j k)] /\
+    cell_tuple d g "valid" id = Some [if nth (cpos ny nz 1 i j k 0) valid false then vone else vzero] /\
+    forall l c, (1 < nv)%nat -> vd = Some l -> NoDup l -> (c < nv)%nat ->
+      cell_tuple d g (nth c l ""%string) id = Some [nth (cpos ny nz nv i j k c) vals d].
+Proof. exact locate_carries. Qed.
+Print Assumptions C16_locate.
+
+Example C16_locate_nonvacuous :
+  exists g, to_vtk 0 (fun l => hd 0 l) 1 0
+      (mkVF (mkMesh (mkRegion [0; 0; 0] [2; 1; 1] ["x"; "y"; "z"]%string ["m"; "m"; "m"]%string (1 # 1000)) [2; 1; 1]%Z ""%string [])
+            1%nat None [5; 7] [true; false]) = OK g /\
+    locate g [3 # 2; 1 # 2; 1 # 2] = Some 1%nat /\ cell_tuple 0 g "field" 1 = Some [7].
+Proof. exact locate_carries_nonvacuous. Qed.
+Print Assumptions C16_locate_nonvacuous.
+
+(* one axis: the vertex interval holding p is the cell of point2index (C01's p2i1) *)
+Theorem C16_locate_axis : forall (lo hi : Q) (k : Z) (p : Q),
+  lo < hi -> (0 < k)%Z -> lo <= p -> p < hi ->
+  find_interval (vertices_axis lo hi k) p = Some (Z.to_nat (p2i1 lo (cell_of lo hi k) k p)).
+Proof. exact locate_axis. Qed.
+Print Assumptions C16_locate_axis.
+
+(* the flattening after transpose((2,1,0,3)): component c of cell (i,j,k) is element c of VTK
+   tuple i + nx*(j + ny*k) -- for every shape *)
+Theorem C16_layout : forall (V : Type) (d : V) (nx ny nz nv : nat) (a : list V) (i j k c : nat),
+  (i < nx)%nat -> (j < ny)%nat -> (k < nz)%nat -> (c < nv)%nat ->
+  nth (vpos nx ny nv i j k c) (vtk_order d nx ny nz nv a) d = nth (cpos ny nz nv i j k c) a d.
+Proof. exact vtk_order_nth. Qed.
+Print Assumptions C16_layout.
+
+(* Clause 2, payload: the reader's reshape/transpose undoes the writer's for every shape; a value
+   comes back as [wr v], wr = what the representation does to one number (identity for binary
+   and XML, ten-significant-digit rounding for text) *)
+Theorem C16_roundtrip_values : forall (V : Type) (d : V) (wr : V -> V) (nx ny nz nv : nat) (a : list V)
+  (i j k c : nat),
+  (i < nx)%nat -> (j < ny)%nat -> (k < nz)%nat -> (c < nv)%nat ->
+  nth (cpos ny nz nv i j k c) (from_vtk_order d nx ny nz nv (map wr (vtk_order d nx ny nz nv a))) d
+  = wr (nth (cpos ny nz nv i j k c) a d).
+Proof. exact transpose_roundtrip. Qed.
+Print Assumptions C16_roundtrip_values.
+
+Theorem C16_roundtrip_shape : forall (V : Type) (d : V) (nx ny nz nv : nat) (p : list V),
+  length (from_vtk_order d nx ny nz nv p) = (nx * ny * nz * nv)%nat.
+Proof. exact from_vtk_order_length. Qed.
+Print Assumptions C16_roundtrip_shape.
+
+(* arrays are found again under their names; AddArray replaces an array of the same name (the
+   mechanism behind the known finding C16-label-field) *)
 Theorem C16_add_then_lookup : forall (A : Type) (name : string) (a : A) (l : list (string * A)),
   lookup_array name (add_array name a l) = Some a.
 Proof. exact @lookup_add_same. Qed.
 Print Assumptions C16_add_then_lookup.
+
+Theorem C16_add_keeps_others : forall (A : Type) (name name' : string) (a : A) (l : list (string * A)),
+  name <> name' -> lookup_array name (add_array name' a l) = lookup_array name l.
+Proof. exact @lookup_add_other. Qed.
+Print Assumptions C16_add_keeps_others.
+
+(* Clause 3, legacy point-data files: for an axis with at least two points at the cell centres
+   of [lo,hi] / k the legacy reader recovers the cell size and both corners; values are taken
+   one per cell in file order (x fastest) *)
+Theorem C16_legacy_axis : forall (lo hi : Q) (k : Z), lo < hi -> (2 <= k)%Z ->
+  let c := cell_of lo hi k in
+  let cs := cells_axis lo hi k in
+  length cs = Z.to_nat k /\
+  legacy_cell cs == c /\ hd 0 cs - legacy_cell cs * (1 # 2) == lo /\
+  (hd 0 cs - legacy_cell cs * (1 # 2)) + inject_Z k * legacy_cell cs == hi.
+Proof. exact legacy_axis. Qed.
+Print Assumptions C16_legacy_axis.
+
+Theorem C16_legacy_values : forall (V : Type) (d : V) (rows : list (list V)) (nx ny nz dim i j k c : nat),
+  (i < nx)%nat -> (j < ny)%nat -> (k < nz)%nat -> (c < dim)%nat ->
+  nth (cpos ny nz dim i j k c)
+      (tab nx (fun i => tab ny (fun j => tab nz (fun k =>
+         map (fun c => nth c (nth (cell_id nx ny i j k) rows []) d) (seq 0 dim))))) d
+  = nth c (nth (cell_id nx ny i j k) rows []) d.
+Proof. exact legacy_values. Qed.
+Print Assumptions C16_legacy_values.
